@@ -202,7 +202,9 @@ impl verif::Handler for H {
                 self.cmd_depth.fetch_add(1, Ordering::Relaxed);
                 self.in_command.store(true, Ordering::Relaxed);
             }
-            "agg-before-cache-update" => {
+            // (the end of a command, also of one without effect or one whose pre-save listener failed;
+            // "agg-before-cache-update" is only passed when the cached copy changed)
+            "agg-command-end" => {
                 let d = self.cmd_depth.load(Ordering::Relaxed).saturating_sub(1);
                 self.cmd_depth.store(d, Ordering::Relaxed);
                 self.in_command.store(d > 0, Ordering::Relaxed);
